@@ -91,11 +91,11 @@ func calibrable(c Case) (calCase, bool) {
 				bad = true
 			}
 		case "ModuleToString":
-			if len(x.Args) != 1 || x.Args[0].Op != "lit" || !onlyInts(x.Args[0].Lit.V()) {
+			if len(x.Args) != 1 || x.Args[0].Op != "lit" || (x.Args[0].Lit.T != "i" && x.Args[0].Lit.T != "b" && x.Args[0].Lit.T != "s") {
 				bad = true
 			}
 		case "lit":
-			if !rv.WellFormed(x.Lit.V()) {
+			if !rv.WellFormed(x.Lit.V()) || !litInRange(*x.Lit) {
 				bad = true
 			}
 		}
@@ -103,7 +103,7 @@ func calibrable(c Case) (calCase, bool) {
 			bad = true
 		}
 	})
-	if bad || len(c.Env) > 0 || (nChoose > 0 && !(nChoose == 1 && e.Op == "choose")) {
+	if bad || e.Op == "ModuleSeq" || len(c.Env) > 0 || (nChoose > 0 && !(nChoose == 1 && e.Op == "choose")) {
 		return calCase{}, false
 	}
 	ev := &rv.Evaluator{Limit: 200_000}
@@ -177,7 +177,7 @@ func runTLC(dir, name string, assumes []string) (string, error) {
 }
 
 func parseFailed(out string) bool {
-	return strings.Contains(out, "Parsing or semantic analysis failed") || strings.Contains(out, "*** Errors:") || strings.Contains(out, "Fatal errors while parsing")
+	return strings.Contains(out, "Parsing or semantic analysis failed") || strings.Contains(out, "*** Errors:") || strings.Contains(out, "Fatal errors while parsing") || strings.Contains(out, "TLC can't handle a number this big")
 }
 
 func tlcError(out string) string {
@@ -280,7 +280,7 @@ func (c *calibration) count(f func()) {
 }
 
 func (c *calibration) errorCase(p *parent, dir string, cc calCase) {
-	out, err := runTLC(dir, "CalE", []string{fmt.Sprintf("PrintT(<<%d, %s>>)", calOffset, cc.text)})
+	out, err := runTLC(dir, "CalE", []string{fmt.Sprintf("PrintT(<<%d, (%s) = (%s), %s>>)", calOffset, cc.text, cc.text, cc.text)})
 	c.count(func() { c.tlcRuns++ })
 	if err != nil || parseFailed(out) {
 		c.count(func() { c.tlcFailures++ })
